@@ -5,12 +5,12 @@ sys.path.insert(0, os.path.dirname(os.path.abspath(__file__)))
 VERIF = os.path.dirname(os.path.dirname(os.path.abspath(__file__)))
 
 TEXT = {
- "C01": ("proof of the codec layer only: Verus proves the Shadowsocks chunk encoder refines wire_chunks and the decoder refines the maximal-munch parse, and lemma_chunks_roundtrip proves parse(wire(x)++tail) returns exactly x for every write size and cap. The Shadowsocks PayloadCodec wrappers the relays use are under contract too (server: every plaintext the cipher delivers goes out, the first item carries the session's target address; legacy ciphers take it from the first plaintext). SOCKS/HTTP handshake I/O, relay pumps, transports and schedules are async code out of reach and are not decided.", "7 C01"),
+ "C01": ("proof of the codec layer only: Verus proves the Shadowsocks chunk encoder refines wire_chunks and the decoder refines the maximal-munch parse, and lemma_chunks_roundtrip proves parse(wire(x)++tail) returns exactly x for every write size and cap. The Shadowsocks PayloadCodec wrappers the relays use are under contract too (server: every plaintext the cipher delivers goes out, the first item carries the session's target address; legacy ciphers take it from the first plaintext). The server task relay_to (async, rewrite R29) dials only for a ConnectTcp item the inbound codec delivered, reaches (a resolution of) exactly the address in that item and hands the payload that came with it on as the first thing to forward; the message conversions keep payloads unchanged. The local handshake is decided under C13. The forward pumps (relay_bidirectional, relay_tcp), transports and schedules are not decided.", "7 C01"),
  "C02": ("proof of the codec layer only: datagram encode/decode contracts (SOCKS5 UDP codec, Shadowsocks encode_packet/decode_packet) state whole-or-error delivery with the exact address bytes; the Shadowsocks 2022 UDP decoders (client and server side, AES and XChaCha variants, identity header) refine a SIP022 packet spec; Ord for Address makes binding-table keys collide only for equal addresses. The 2022 UDP encoders (client and server side, AES and XChaCha variants) refine the SIP022 wire layout for exactly this session id, packet id, address and payload, and lemma_udp22_c2s_roundtrip / lemma_udp22_s2c_roundtrip prove that the decoders' packet specification reads back the same ids, address and payload. WebSocketFramed::start_send puts one item into one binary message. Association tables, channels and sockets are not decided.", "7 C02"),
  "C03": ("Verus proves the real encoders/decoders refine spec functions transcribed from the published formats (chunk framing, nonce sequence starting at 0 and incrementing little-endian, RFC 1928 addresses) over named uninterpreted AEAD primitives; a self-consistent deviation on one side fails the refinement.", "7 C03"),
  "C04": ("Verus proves each stream decoder refines a maximal-munch parse spec function (complete units are delivered at once, an incomplete unit is left untouched) and lemma_parse_compose proves parse(x++y) = parse(x) then parse(rest++y) for every cut, by induction: independence from all segmentations under the quoted FramedRead driver hypothesis. For ws/wss the driver itself is under contract: WebSocketFramed::poll_next feeds the decoder exactly the concatenated payloads of the data messages (nothing lost, repeated or reordered whatever the message boundaries), answers Pending only right after the transport answered Pending (waker registered) and only when the decoder waits on everything buffered; its termination is not proved.", "7 C04"),
  "C05": ("Verus proves release discipline on the real decoders: every byte appended to the output is the result of a successful AEAD open under the session key with the next counter value; length fields are used only after their own open succeeded; Err yields no output. With the stated INT-CTXT hypothesis this gives prefix-only release. The hypothesis that the driver stops at the first decode error is tokio_util's for FramedRead (quoted) and proved for WebSocketFramed::poll_next (decode is never called again after an error, the stream ends).", "7 C05"),
- "C06": ("Verus proves acceptance postconditions on the real server-side decoders: a Shadowsocks stream is accepted only after an AEAD open under the sub-key derived from the configured key and the received salt (HKDF-SHA1 'ss-subkey' / BLAKE3 session subkey), and with identity headers only under the key of the registered user whose identity hash the header decrypts to. INT-CTXT of the AEAD is the stated hypothesis.", "7 C06"),
+ "C06": ("Verus proves acceptance postconditions on the real server-side decoders: a Shadowsocks stream is accepted only after an AEAD open under the sub-key derived from the configured key and the received salt (HKDF-SHA1 'ss-subkey' / BLAKE3 session subkey), and with identity headers only under the key of the registered user whose identity hash the header decrypts to. INT-CTXT of the AEAD is the stated hypothesis. The server task relay_to dials a target, or forwards a datagram, only for an item the (credential-checking) inbound codec delivered.", "7 C06"),
  "C10": ("Verus proves validate_timestamp accepts iff |clock - ts| <= 30 (all 2^64 timestamps), that a 2022 TCP stream is accepted only with the expected type byte, a fresh timestamp and a salt the replay cache did not hold, and that the cache keeps salts for the whole acceptance window (>= 61 s). The cache itself (Mutex<LruCache>, interior mutability) is an oracle, not verified; concurrency is out of reach.", "7 C10"),
  "C16": ("Verus proves config::Mode::enable_{tcp,udp,quic} equal the README table for all five modes, and that the serde name tables of CipherKind (7 names + alias), Mode and Protocol -- generated mechanically from the enum attributes on every run -- equal the documented names with no catch-all variant; that the cipher name selects the credential format (ClientContext::try_from, Client::new_static, ServerContext::init: base64 key list for 2022-blake3-*, EVP_BytesToKey(MD5) of the password otherwise, on TCP and UDP alike), that password_to_keys keeps the configured order of identity keys with the encryption key last, and ServerUser::try_from keys a user by its uPSK and BLAKE3 identity hash. Open finding F23 (short keys accepted) is the one failing obligation. Which sockets startup opens and the async startup_udp copy of the key derivation are outside Verus' reach.", "7 C16"),
  "C07": ("Verus discharges, for every buffer content and decoder state, the panic-freedom obligations of each sync decoder under contract: every Buf read/advance/split/index has enough bytes (shim preconditions = documented panics of `bytes`), no reachable panic!/unwrap, no arithmetic overflow, loops terminate.", "7 C07"),
